@@ -173,6 +173,30 @@ Theorem C13_pre_compare_total_order :
   (forall a, a <> [] -> pre_compare a [] = Lt).
 Proof. exact pre_compare_total_order. Qed.
 
+
+(* The matcher is a conjunction: comparator order is irrelevant, a split
+   requirement is the conjunction of its parts (plus ONE shared pre-release
+   gate), more comparators never admit more for want of a match, and `*`
+   admits exactly the releases.  All versions, all requirements. *)
+From Coq Require Import Permutation.
+Theorem C13_matches_order_irrelevant : forall r r' v,
+  Permutation r r' -> matches_req r v = matches_req r' v.
+Proof. exact matches_req_perm. Qed.
+
+Theorem C13_matches_conjunction : forall r1 r2 v,
+  matches_req (r1 ++ r2) v =
+  forallb (fun c => matches_impl c v) r1 && forallb (fun c => matches_impl c v) r2
+  && (pre_is_empty (vpre v) || existsb (fun c => pre_is_compatible c v) r1
+      || existsb (fun c => pre_is_compatible c v) r2).
+Proof. exact matches_req_app. Qed.
+
+Theorem C13_matches_conjunction_release : forall r1 r2 v, vpre v = [] ->
+  matches_req (r1 ++ r2) v = matches_req r1 v && matches_req r2 v.
+Proof. exact matches_req_app_release. Qed.
+
+Theorem C13_matches_star : forall v, matches_req [] v = pre_is_empty (vpre v).
+Proof. exact matches_req_star. Qed.
+
 (* ------------------------------------------------------------ non-vacuity *)
 From Coq Require Import String.
 Open Scope string_scope.
